@@ -230,6 +230,11 @@ def one_op(r, cur, focus, ext, want_fail, allow_root):
         p = r.choice(nums)
         t = R.resolve(cur, list(p))
         v = r.choice([1, -1, 5, 100, -1000, F64(0.5), F64(-2.25), F64(3.5), F64(-2.5)])
+        if type(t) is int and r.random() < 0.3:
+            # integer + integer beyond 2^53: the sum must be exact (no detour through a double)
+            big = r.choice([(1 << 53) + 1, -(1 << 53) - 1, 1234567890123456789, -1234567890123456789, (1 << 62) + 3, (1 << 63) - 1 - abs(t)])
+            if -(1 << 63) <= t + big < (1 << 63) or r.random() < 0.15:       # (an overflowing increment must be refused)
+                v = big
         return {"op": "increment", "path": ptr(p), "value": v}
     if kind == "add_create":
         objs = [p for p in container_paths(cur) if isinstance(R.resolve(cur, list(p)), dict)]
@@ -326,7 +331,10 @@ def mutate(r, v):
             w = v - (w - v)
             if -(1 << 63) <= w < (1 << 63):
                 return w
-        return v + r.choice([1, -1]) if x < 0.8 else str(v)
+        if x < 0.8:
+            w = v + r.choice([1, -1])
+            return w if -(1 << 63) <= w < (1 << 63) else v - (w - v)      # stay inside int64 (the wire form cannot say more)
+        return str(v)
     if isinstance(v, str):
         return v + "x" if r.random() < 0.7 else (v[:-1] if v else 0)
     if isinstance(v, F64):
